@@ -45,10 +45,19 @@ CheckMetConc(e) ==
   \o (IF \E i \in DOMAIN e.served : e.btotal[i] # e.served[i] THEN <<[prop |-> "C13", clause |-> "BackendTotals_concurrent"]>> ELSE <<>>)
   \o (IF \E i \in DOMAIN e.bactive : e.bactive[i] # 0 THEN <<[prop |-> "C13", clause |-> "Gauge_concurrent"]>> ELSE <<>>)
 
+\* C08 under real parallelism: a tripped breaker whose timeout has passed lets the trials in, nobody waits forever, and once
+\* success_threshold of them succeeded it is closed and serves on
+CheckCbStress(e) ==
+  IF e.wedged THEN <<[prop |-> "C08", clause |-> "Wedged_parallel"]>>
+  ELSE (IF e.tripped # 500 \/ e.blocked # 503 THEN <<[prop |-> "C08", clause |-> "StressSetup"]>> ELSE <<>>)
+       \o (IF e.returned # e.total \/ e.ok # e.total THEN <<[prop |-> "C08", clause |-> "TrialRefused_parallel"]>> ELSE <<>>)
+       \o (IF e.state # "closed" \/ e.after # 200 THEN <<[prop |-> "C08", clause |-> "NotRecovered_parallel"]>> ELSE <<>>)
+
 Check(e) == CASE e.kind = "wrr" -> CheckWrr(e) [] e.kind = "rrcount" -> CheckRr(e) [] e.kind = "jump" -> CheckJump(e)
               [] e.kind = "jumpsummary" -> CheckJumpSummary(e) [] e.kind = "addr" -> CheckAddr(e) [] e.kind = "limconc" -> CheckLim(e)
               [] e.kind = "affconc" -> CheckAffConc(e)
               [] e.kind = "metconc" -> CheckMetConc(e)
+              [] e.kind = "cbstress" -> CheckCbStress(e)
               [] OTHER -> <<>>
 Init == l = 1 /\ viol = <<>>
 Next == /\ l <= Len(Tr) /\ l' = l + 1 /\ viol' = Check(Tr[l])
